@@ -30,9 +30,10 @@ class OneWayBarrier : public galois::substrate::Barrier {
   std::condition_variable cond;
   unsigned count;
   unsigned total;
+  unsigned generation;
 
 public:
-  OneWayBarrier(unsigned p) { reinit(p); }
+  OneWayBarrier(unsigned p) : generation(0) { reinit(p); }
 
   virtual ~OneWayBarrier() {}
 
@@ -43,9 +44,18 @@ public:
 
   virtual void wait() {
     std::unique_lock<std::mutex> tmp(lock);
+    // Waiters leave on a change of generation rather than on the value of
+    // count, so re-arming the barrier cannot strand a waiter that has been
+    // notified but has not re-evaluated its predicate yet.
+    unsigned gen = generation;
     count += 1;
-    cond.wait(tmp, [this]() { return count >= total; });
-    cond.notify_all();
+    if (count >= total) {
+      count = 0;
+      ++generation;
+      cond.notify_all();
+    } else {
+      cond.wait(tmp, [this, gen]() { return gen != generation; });
+    }
   }
 
   virtual const char* name() const { return "OneWayBarrier"; }
